@@ -1,10 +1,13 @@
 ------------------------------ MODULE MC_SrvInfo ------------------------------
-(* All sequences of at most MaxOps received parts (repeats allowed) of every instance of
-   Instances, merged in every order and every bracketing (partials into partials; at most
-   MaxPool partials held at a time). *)
+(* All sequences of at most MaxOps received parts (every part at most MaxRep times) of every
+   instance of the families Fams, merged in every order and every bracketing (partials into
+   partials; at most MaxPool partials held at a time), with take_info at any moment (Take).
+   Linear = TRUE restricts the bracketing to the usual accumulator (every received part is merged
+   into the first partial at once), which makes long histories affordable: every part repeated up
+   to three times at every position between up to four parts. *)
 EXTENDS SrvInfo, Json
 
-CONSTANTS MaxOps, MaxPool, Sizes, MaxParts, Export
+CONSTANTS MaxOps, MaxRep, MaxPool, Sizes, MaxParts, Fams, Take, Linear, Export
 
 \* consecutive client ranges of the given sizes
 RECURSIVE Ranges(_, _)
@@ -13,45 +16,93 @@ Ranges(sizes, from) ==
   ELSE <<from..(from + Head(sizes) - 1)>> \o Ranges(Tail(sizes), from + Head(sizes))
 RECURSIVE SumSeq(_)
 SumSeq(s) == IF s = <<>> THEN 0 ELSE Head(s) + SumSeq(Tail(s))
+Asc(set) == SetToSortSeq(set, <)
+Min2(a, b) == IF a < b THEN a ELSE b
 
-\* 6_64: every packet carries the header; mask bits = client slots (0-based) of the packet
-Inst664(sizes) ==
-  LET r == Ranges(sizes, 1) IN
-  [v |-> "v664", n |-> SumSeq(sizes),
-   parts |-> [p \in 1..Len(sizes) |-> [bits |-> {c - 1 : c \in r[p]}, cl |-> r[p], main |-> TRUE]]]
+IdRec == [c \in 1..70 |-> ((c - 1) % 64) + 1]
+P664(srv, tok, n, off, ncl) == [srv |-> srv, v |-> "v664", tok |-> tok, main |-> TRUE, n |-> n, off |-> off,
+                                cl |-> [k \in 1..ncl |-> off + k]]
+PMain(srv, tok, n, cl) == [srv |-> srv, v |-> "v6ex", tok |-> tok, main |-> TRUE, n |-> n, off |-> 0, cl |-> cl]
+PMore(srv, tok, pno, cl) == [srv |-> srv, v |-> "v6ex", tok |-> tok, main |-> FALSE, n |-> 0, off |-> pno, cl |-> cl]
+
+\* 6_64: every packet carries the header; client c sits in slot c - 1
+Parts664(srv, tok, sizes, from) ==
+  LET r == Ranges(sizes, from) IN
+  [p \in 1..Len(sizes) |-> P664(srv, tok, SumSeq(sizes), IF sizes[p] = 0 THEN Min2(from - 1 + SumSeq(SubSeq(sizes, 1, p - 1)), 63)
+                                                           ELSE (CHOOSE c \in r[p] : \A e \in r[p] : c <= e) - 1, sizes[p])]
 \* 6ex: part 1 is the main packet (implicit packet number 0), part p > 1 the "more" packet p - 1
-Inst6Ex(sizes) ==
-  LET r == Ranges(sizes, 1) IN
-  [v |-> "v6ex", n |-> SumSeq(sizes),
-   parts |-> [p \in 1..Len(sizes) |-> [bits |-> {p - 1}, cl |-> r[p], main |-> p = 1]]]
+Parts6Ex(srv, tok, sizes, from) ==
+  LET r == Ranges(sizes, from) IN
+  [p \in 1..Len(sizes) |-> IF p = 1 THEN PMain(srv, tok, SumSeq(sizes), Asc(r[p])) ELSE PMore(srv, tok, p - 1, Asc(r[p]))]
+Inst(parts, rec) == MkInst(parts, rec)
 
 SizeSeqs == UNION {[1..k -> Sizes] : k \in 1..MaxParts}
-\* assumption: a "more" packet of 6ex is never empty (servers only send one when clients are left)
-Instances ==
-  {Inst664(s) : s \in SizeSeqs} \cup
-  {Inst6Ex(s) : s \in {x \in SizeSeqs : \A k \in 2..Len(x) : x[k] > 0}}
+SizeSeqsEx == {x \in SizeSeqs : \A k \in 2..Len(x) : x[k] > 0}     \* a "more" packet of 6ex is never empty
+\* servers whose clients carry equal records (all the same / two alternating)
+OneRec == [c \in 1..70 |-> 1]
+TwoRec == [c \in 1..70 |-> ((c - 1) % 2) * 8 + 1]
 
-Init == /\ inst \in Instances /\ pool = <<>> /\ nparse = 0 /\ bug = 0 /\ act = [a |-> "init"]
-DoReceive == \E p \in 1..Len(inst.parts) : Receive(p, MaxOps, MaxPool)
-DoMergeInto == \E i \in 1..Len(pool), j \in 1..Len(pool) : MergeInto(i, j)
-DoMergeRepeated_KnownBug == \E i \in 1..Len(pool), j \in 1..Len(pool) : MergeRepeated_KnownBug(i, j)
-Next == DoReceive \/ DoMergeInto \/ DoMergeRepeated_KnownBug
+FamInst(f) ==
+  CASE f = "wf" -> {Inst(Parts664(1, 7, s, 1), IdRec) : s \in SizeSeqs} \cup {Inst(Parts6Ex(1, 7, s, 1), IdRec) : s \in SizeSeqsEx}
+    \* equal client records (a server full of "(connecting)" clients): kept with their multiplicity
+    [] f = "dup" -> {Inst(Parts664(1, 7, s, 1), r) : s \in {x \in SizeSeqs : SumSeq(x) >= 2}, r \in {OneRec, TwoRec}}
+                    \cup {Inst(Parts6Ex(1, 7, s, 1), r) : s \in {x \in SizeSeqsEx : SumSeq(x) >= 2}, r \in {OneRec, TwoRec}}
+    \* the fixed four- and three-part infos of the repetition configuration
+    [] f = "rep" -> {Inst(Parts664(1, 7, <<1, 1, 1, 1>>, 1), IdRec), Inst(Parts6Ex(1, 7, <<1, 1, 1, 1>>, 1), IdRec),
+                     Inst(Parts664(1, 7, <<2, 1, 1>>, 1), TwoRec), Inst(Parts6Ex(1, 7, <<0, 2, 1>>, 1), TwoRec)}
+    \* parts of two requests fed to the same partials: other token / other version / indistinguishable
+    [] f = "twotok" -> {Inst(Parts6Ex(1, 7, <<1, 1>>, 1) \o Parts6Ex(2, 9, <<1, 1>>, 3), IdRec),
+                        Inst(Parts664(1, 7, <<1, 1>>, 1) \o Parts664(2, 0, <<1, 1>>, 1), IdRec)}
+    [] f = "twover" -> {Inst(Parts664(1, 7, <<1, 1>>, 1) \o Parts6Ex(2, 7, <<1, 1>>, 3), IdRec)}
+    [] f = "twosame" -> {Inst(Parts6Ex(1, 7, <<1, 1>>, 1) \o <<PMain(2, 7, 2, <<3>>), PMore(2, 7, 2, <<4>>)>>, IdRec),
+                         Inst(Parts664(1, 7, <<1, 1>>, 1) \o <<P664(2, 7, 3, 2, 1)>>, IdRec)}
+    [] f = "tokzero" -> {Inst(Parts664(1, 0, <<1, 1>>, 1), IdRec), Inst(Parts6Ex(1, 0, <<1, 1>>, 1), IdRec)}
+    \* malformed servers: overlapping and out-of-range client slots, differing announcements
+    [] f = "overlap664" -> {Inst(<<P664(1, 7, 3, 0, 2), P664(1, 7, 3, 1, 2), P664(1, 7, 3, 2, 1)>>, IdRec)}
+    [] f = "range664" -> {Inst(<<P664(1, 7, 64, 62, 3), P664(1, 7, 64, 63, 1), P664(1, 7, 64, 64, 1), P664(1, 7, 64, 0, 1)>>, IdRec),
+                          Inst(<<P664(1, 7, 65, 0, 1), P664(1, 7, 2, -1, 0), P664(1, 7, 2, 0, 1), P664(1, 7, 2, 1, 1)>>, IdRec)}
+    [] f = "diffn" -> {Inst(<<P664(1, 7, 2, 0, 1), P664(1, 7, 3, 1, 1), P664(1, 7, 1, 2, 1)>>, IdRec)}
+    \* repeated and out-of-range packet numbers (more than the maximum number of parts), two main
+    \* packets, an empty "more" packet
+    [] f = "pno" -> {Inst(<<PMain(1, 7, 3, <<1>>), PMore(1, 7, 1, <<2>>), PMore(1, 7, 1, <<3>>), PMore(1, 7, 63, <<3>>)>>, IdRec),
+                     Inst(<<PMain(1, 7, 2, <<1>>), PMore(1, 7, 64, <<2>>), PMore(1, 7, 0, <<2>>), PMore(1, 7, 63, <<2>>)>>, IdRec)}
+    [] f = "twomain" -> {Inst(<<PMain(1, 7, 2, <<1>>), PMain(1, 7, 2, <<2>>), PMore(1, 7, 1, <<2>>)>>, IdRec),
+                         Inst(<<PMain(1, 7, 1, <<1>>), PMore(1, 7, 1, <<>>), PMore(1, 7, 2, <<>>)>>, IdRec)}
+Instances == UNION {FamInst(f) : f \in Fams}
+
+Init == /\ inst \in Instances /\ pool = <<>> /\ cnt = [p \in 1..Len(inst.parts) |-> 0] /\ bug = 0 /\ act = [a |-> "init"]
+DoReceive == \E p \in 1..Len(inst.parts) : Receive(p, MaxOps, MaxRep, IF Linear THEN 2 ELSE MaxPool)
+Pairs == IF Linear THEN {<<1, 2>>} ELSE (1..Len(pool)) \X (1..Len(pool))
+DoMergeInto == \E ij \in Pairs : MergeInto(ij[1], ij[2])
+DoMergeRepeated_KnownBug == \E ij \in Pairs : MergeRepeated_KnownBug(ij[1], ij[2])
+DoTakeInfo == Take /\ \E i \in 1..Len(pool) : TakeInfo(i)
+Next == DoReceive \/ DoMergeInto \/ DoMergeRepeated_KnownBug \/ DoTakeInfo
 Spec == Init /\ [][Next]_vars
 
-View == <<inst, pool, nparse, bug>>
+View == <<inst, pool, cnt, bug>>
+
+\* the instance families really contain what they are named after (vacuity of the configuration)
+FamiliesAsNamed ==
+  /\ \A x \in FamInst("wf") \cup FamInst("dup") \cup FamInst("rep") \cup FamInst("tokzero") : (1 \in x.wf)
+  /\ \A x \in FamInst("twotok") \cup FamInst("twover") : (1 \in x.wf) /\ (2 \in x.wf)
+  /\ \A x \in FamInst("overlap664") \cup FamInst("range664") \cup FamInst("diffn") \cup FamInst("pno") \cup FamInst("twomain") :
+        ~(1 \in x.wf)
+  /\ \A x \in FamInst("dup") : \E c \in 1..2 : x.rec[c] = x.rec[c + 2] \/ x.rec[c] = x.rec[c + 1]
+ASSUME FamiliesAsNamed
 
 \* bags as sorted sequences of ids for the harness
 BagSeq(b) == LET RECURSIVE go(_, _)
-                 go(c, acc) == IF c > 64 THEN acc
+                 go(c, acc) == IF c > 70 THEN acc
                                ELSE go(c + 1, IF c \in DOMAIN b THEN acc \o [k \in 1..b[c] |-> c] ELSE acc)
-             IN go(1, <<>>)
-ObsJ(o) == [complete |-> o.complete, clients |-> o.clients]
-ActJ(a) == IF a.a = "merge" THEN [a EXCEPT !.obs = ObsJ(a.obs), !.prop = ObsJ(a.prop)] ELSE a
-PartJ(p) == [bits |-> BagSeq(BagOf({b + 1 : b \in p.bits})), cl |-> BagSeq(BagOf(p.cl)), main |-> p.main]
-InstJ(x) == [v |-> x.v, n |-> x.n, parts |-> [p \in 1..Len(x.parts) |-> PartJ(x.parts[p])]]
-PoolJ(pl) == [k \in 1..Len(pl) |-> [rcv |-> BagSeq(BagOf({b + 1 : b \in pl[k].rcv})), cls |-> BagSeq(pl[k].cls),
-                                    hdr |-> pl[k].hdr, got |-> BagSeq(BagOf(pl[k].got))]]
-StJ(i, pl, np) == [inst |-> InstJ(i), pool |-> PoolJ(pl), nparse |-> np]
+             IN go(0, <<>>)
+ObsJ(o) == o
+ActJ(a) == IF a.a \in {"merge", "take"} THEN [a EXCEPT !.obs = ObsJ(a.obs), !.prop = ObsJ(a.prop)] ELSE a
+PartJ(x, p) == [srv |-> p.srv, v |-> p.v, tok |-> p.tok, main |-> p.main, n |-> p.n, off |-> p.off, cl |-> p.cl,
+                recs |-> [k \in 1..Len(p.cl) |-> x.rec[p.cl[k]]], wf |-> p.srv \in x.wf]
+InstJ(x) == [parts |-> [p \in 1..Len(x.parts) |-> PartJ(x, x.parts[p])]]
+PoolJ(pl) == [k \in 1..Len(pl) |-> [rcv |-> BagSeq(BagOf({b + 1 : b \in pl[k].rcv})), cls |-> BagSeq(BagMap(inst.rec, pl[k].cls)),
+                                    tok |-> pl[k].tok, hdr |-> pl[k].hdr, got |-> BagSeq(BagOf(pl[k].got)), taken |-> pl[k].taken]]
+StJ(i, pl, c) == [inst |-> InstJ(i), pool |-> PoolJ(pl), cnt |-> c]
 ExportT ==
-  Export => PrintT(<<"T", ToJson(StJ(inst, pool, nparse)), ToJson(ActJ(act')), ToJson([pool |-> PoolJ(pool'), nparse |-> nparse'])>>)
+  Export => PrintT(<<"T", ToJson(StJ(inst, pool, cnt)), ToJson(ActJ(act')), ToJson([pool |-> PoolJ(pool'), cnt |-> cnt'])>>)
 =============================================================================
